@@ -475,6 +475,98 @@ func transientFailure(run *evid.Run, idx int) {
 	}
 }
 
+// interleavedUploads: through ONE client, a finished upload (written, committed, closed — in either order
+// of the last two, or cancelled) is followed by two or three uploads that are open at the same time and
+// written alternately. Each of them must commit exactly what its own Writes were given: uploads share
+// nothing a caller can see.
+func interleavedUploads(run *evid.Run, idx int) {
+	rng := run.Rand(45, uint64(idx))
+	reg, closeAll := stack.HTTP(ocimem.New(), stack.HTTPOpts{})
+	defer closeAll()
+	repo := fmt.Sprintf("il/r%d", idx)
+	run.Eval(1)
+	var log []string
+	for round := 0; round < 3; round++ {
+		hint0 := []int{0, 0, 64 * 1024, 100}[rng.IntN(4)]
+		first := content(rng, 1+rng.IntN(2000))
+		w, err := reg.PushBlobChunked(bg, repo, hint0)
+		if err != nil {
+			run.Inconclusive("interleaved-uploads setup: " + err.Error())
+			return
+		}
+		w.Write(append([]byte(nil), first...))
+		ending := rng.IntN(5)
+		switch ending {
+		case 0:
+			w.Commit(ociregistry.Digest(model.Digest(first)))
+			w.Close()
+		case 1:
+			w.Close()
+			w.Commit(ociregistry.Digest(model.Digest(first)))
+		case 2:
+			w.Commit(ociregistry.Digest(model.Digest(first)))
+			w.Close()
+			w.Close()
+		case 3:
+			w.Close()
+			w.Cancel()
+		case 4:
+			w.Commit(ociregistry.Digest(model.Digest(first)))
+			w.Cancel()
+			w.Close()
+		}
+		log = append(log, fmt.Sprintf("round %d: first upload hint=%d len=%d ending=%d", round, hint0, len(first), ending))
+		k := 2 + rng.IntN(2)
+		ws := make([]ociregistry.BlobWriter, k)
+		want := make([][]byte, k)
+		for i := range ws {
+			hint := []int{0, 0, 0, 64 * 1024, 100}[rng.IntN(5)]
+			ws[i], err = reg.PushBlobChunked(bg, repo, hint)
+			if err != nil {
+				run.Violation("interleaved-uploads/open-failed", fmt.Sprintf("opening upload %d of %d failed: %v", i, k, err), map[string]any{"log": log})
+				return
+			}
+			log = append(log, fmt.Sprintf("  open #%d hint=%d", i, hint))
+		}
+		for step, n := 0, 3+rng.IntN(6); step < n; step++ {
+			for i := range ws {
+				if rng.IntN(4) == 0 {
+					continue
+				}
+				p := content(rng, 1+rng.IntN(1500))
+				for j := range p {
+					p[j] = byte('A' + i) // each upload's bytes name it
+				}
+				buf := append([]byte(nil), p...)
+				if _, err := ws[i].Write(buf); err != nil {
+					run.Violation("interleaved-uploads/write-failed", fmt.Sprintf("a Write to upload %d failed: %v", i, err), map[string]any{"log": log})
+					return
+				}
+				for j := range buf {
+					buf[j] = '!'
+				}
+				want[i] = append(want[i], p...)
+			}
+		}
+		for i := range ws {
+			d := model.Digest(want[i])
+			_, cerr := ws[i].Commit(ociregistry.Digest(d))
+			ws[i].Close()
+			if cerr != nil {
+				run.Violation("interleaved-uploads/commit-failed", fmt.Sprintf("upload %d of %d simultaneous ones: Commit with the digest of the %d bytes written to it failed: %v", i, k, len(want[i]), cerr), map[string]any{"log": log})
+				return
+			}
+			data, gerr := readBlob(reg, repo, d)
+			if gerr != nil || !bytes.Equal(data, want[i]) {
+				run.Violation("interleaved-uploads/content", fmt.Sprintf("upload %d: committed content differs from what was written (err=%v, %d vs %d bytes)", i, gerr, len(data), len(want[i])), map[string]any{"log": log})
+				return
+			}
+			run.Count("interleaved_uploads_committed", 1)
+		}
+		run.Distinct(fmt.Sprintf("interleaved-uploads/first-hint=%d/ending=%d/k=%d", hint0, ending, k))
+	}
+}
+
 func main() {
 	run := evid.Start("C04", "exploration")
 	run.SetRule("a case is one upload scenario: (stack, content, partition into Write calls, chunk-size hint, subset of write boundaries with close-and-resume, resume mode {at Size(), -1}, fault {none, wrong-offset resume, wrong commit digest}). Enumerated completely for content lengths 0..L on the in-memory registry (quick L=6, thorough L=9) and 0..5/0..7 over one HTTP hop; sampled for the other stacks and for contents of up to 5 registry chunks (8 KiB) with hints around the minimum. " +
@@ -624,6 +716,10 @@ func main() {
 		transientFailure(run, i)
 	}
 	run.FloorCounter("transient_failures_retried", 30)
+	for i, n := 0, run.N(60, 2000); i < n; i++ {
+		interleavedUploads(run, i)
+	}
+	run.FloorCounter("interleaved_uploads_committed", 300)
 	run.FloorCounter("recommits_after_more_data", 20)
 	run.FloorCounter("wrong_offset_resumes", 50)
 	run.FloorCounter("wrong_offset_data_sent_by_commit", 10)
